@@ -3,17 +3,25 @@
 Exhaustive over the shared constraint-mix lattice (mc/checks/_c09_models.py): every non-empty subset of
 {equality(connect|weld|joint), friction loss, joint limit, tendon limit, contact condim 1/3/4/6} (511 mixes) on small
 host models x cone {pyramidal, elliptic} x jacobian {dense, sparse} x state lattice (contacts penetrating / touching /
-within margin, limits violated / inside margin / inactive, configuration, velocity pattern) x mode lattice:
+within margin, limits violated / inside margin / inactive, plus the 'idle' state of every (configuration, velocity): all
+contacts separated beyond the margin and all limits inactive, i.e. NO constraint row at all for mixes without E / F and
+only the E / F rows otherwise; configuration, velocity pattern) x mode lattice:
 
   continuous   mj_forward (Newton, tolerance 0, 200 iterations), then mj_inverse at the resulting qacc
+  standalone   the same identity for a stand-alone mj_inverse (state and qacc written by the caller, no mj_forward at this
+               state) on a second, never reset mjData that was last evaluated at the PREVIOUS state of the enumeration:
+               every consecutive pair of lattice states is a history (active -> active, active -> no constraint row,
+               no row -> active), so derived data left by the earlier evaluation must not enter the result
   fwdinv       mj_step with mjENBL_FWDINV: solver_fwdinv small, and mj_compareFwdInv leaves the forward results untouched
   discrete     integrator/flags in {Euler (implicit joint/actuator damping), Euler+eulerdamp disabled, Euler+damper
                disabled, implicit, implicit+damper disabled, implicitfast}: mj_step, qacc := (qvel+ - qvel)/h, mjENBL_INVDISCRETE, mj_inverse
 
 Oracle (only when the forward solver reports convergence: last recorded gradient < 1e-10, otherwise counted and skipped):
+  (a state without constraint rows counts as converged: the forward constraint force is exactly zero)
   qfrc_inverse == qfrc_applied + J'xfrc_applied + qfrc_actuator   (own J'xfrc from mj_jac at the body CoM; passive and
                    bias forces are internal: doc/computation "Inverse dynamics", last step)
   inverse efc_force == forward efc_force, and == the documented analytic inverse (reference law, dual problem with R only)
+  inverse qfrc_constraint == forward qfrc_constraint (joint-space constraint force; also defined without any row)
 """
 import numpy as np
 
@@ -28,7 +36,10 @@ META = dict(
     text="All 511 non-empty constraint mixes on small host models, both cones and both Jacobian layouts, are solved to "
          "convergence with Newton (tolerance 0) at a lattice of contact / limit states; mj_inverse at the resulting "
          "acceleration must return the applied + actuator forces and the same constraint forces, continuous-time and - for "
-         "Euler / implicit / implicitfast with invdiscrete - for the finite-differenced velocity. Exhaustive over the lattice, "
+         "Euler / implicit / implicitfast with invdiscrete - for the finite-differenced velocity. The identity is also required "
+         "at states where every contact and limit is inactive (no constraint row: forward constraint force zero) and for a "
+         "stand-alone mj_inverse on an mjData last used at the previous lattice state, so a constraint force left over from an "
+         "earlier evaluation cannot enter qfrc_inverse. Exhaustive over the lattice, "
          "so a row-type, layout or integrator branch that breaks the identity cannot hide.",
     note="Non-converged forward solves are counted and skipped. Thresholds: 1e-6 relative for the discrete-time identity "
          "(qacc is a finite difference of velocities, observed <= 1e-9), 1e-7 continuous (observed <= 1e-11). RK4 is excluded by the "
@@ -36,6 +47,7 @@ META = dict(
     design_ref="DESIGN.md §3 C09")
 
 GRAD_CONVERGED = 1e-10
+STATE_INTEGRATION = (1 << 14) - 1      # mjSTATE_INTEGRATION: all 14 state components
 TOL_CONT = 1e-7
 TOL_DISC = 1e-6
 EXPLICIT_MINIMAL = {   # stand-alone reproduction: damped pendulum pressed into its joint limit, damper disabled
@@ -76,6 +88,51 @@ def _converged(d):
     return g is not None and g < GRAD_CONVERGED
 
 
+def _standalone(lib, host, part, bad, ident, cone, jac, st, qacc, tau, qc_fwd, f_fwd, qs, fs):
+    """History dimension: mj_inverse is documented as a function of (qpos, qvel, act, qacc, inputs) alone, so the identity
+    must also hold for a STAND-ALONE call (no mj_forward at this state on that mjData) on an mjData whose derived fields
+    were left by the evaluation of the previous state of the enumeration.  host.d_used is never reset: it receives the
+    integration state of host.d (mj_copyState), the forward acceleration, and one mj_inverse per lattice state, so every
+    ordered pair (previous state, this state) of the state sequence is a history: active -> active, active -> no constraint
+    row at all, no row -> active.  qacc None = forward solve not converged: the call is made (history chain) but not judged."""
+    m, d, d2 = host.m, host.d, host.d_used
+    prev_state, host.used_prev = host.used_prev, st
+    xp = {"prev_state": prev_state}
+    prev_qc = np.array(d2.qfrc_constraint)
+    prev_nefc = int(d2.nefc)
+    lib.mj_copyState(m, d, d2, STATE_INTEGRATION)
+    d2.qacc[:] = d.qacc if qacc is None else qacc
+    lib.mj_inverse(m, d2)
+    if qacc is None:
+        part.add("standalone_not_judged")
+        return
+    nefc = f_fwd.size
+    if int(d2.nefc) != nefc:
+        bad("stand-alone inverse on a used mjData builds a different constraint set", "standalone",
+            "nefc %d vs %d" % (int(d2.nefc), nefc), xp)
+        return
+    e_q = float(np.abs(np.array(d2.qfrc_inverse) - tau).max()) / qs
+    e_c = float(np.abs(np.array(d2.qfrc_constraint) - qc_fwd).max()) / qs
+    e_f = float(np.abs(np.array(d2.efc_force[:nefc]) - f_fwd).max()) / fs if nefc else 0.0
+    _hist(part, "standalone", max(e_q, e_c, e_f))
+    detail = "previous evaluation on that mjData had %d constraint rows, |qfrc_constraint| %.3g; this state has %d rows" % (
+        prev_nefc, float(np.abs(prev_qc).max()) if prev_qc.size else 0.0, nefc)
+    if not e_q <= TOL_CONT:
+        bad("stand-alone inverse on a used mjData: qfrc_inverse != applied + J'xfrc + actuator", "standalone",
+            "rel err %.3g; %s" % (e_q, detail), xp)
+    if not e_c <= TOL_CONT:
+        bad("stand-alone inverse on a used mjData: qfrc_constraint != forward qfrc_constraint", "standalone",
+            "rel err %.3g; %s" % (e_c, detail), xp)
+    if not e_f <= TOL_CONT:
+        bad("stand-alone inverse on a used mjData: efc_force != forward efc_force", "standalone", "rel err %.3g; %s" % (e_f, detail), xp)
+    # non-trivial: the previous evaluation really left a constraint force, and it is not the one of this state
+    stale = bool(np.any(prev_qc != 0)) and not np.array_equal(prev_qc, qc_fwd)
+    part.count(1, key=(ident, cone, jac, st, "standalone") if stale else None)
+    part.add("standalone_%s_to_%s" % ("fresh" if host.used_calls == 0 else ("active" if prev_nefc else "norow"),
+                                      "active" if nefc else "norow"))
+    host.used_calls += 1
+
+
 def check_state(lib, host, part, st, cone, jac, ident, thorough):
     m, d = host.m, host.d
     cname = CONE_NAME[cone]
@@ -99,43 +156,52 @@ def check_state(lib, host, part, st, cone, jac, ident, thorough):
     if err:
         raise RuntimeError("lattice self-check failed: %s %s %s %s" % (host.skel, host.atoms, st, err))
     nefc = int(d.nefc)
-    if nefc == 0:
-        part.count(1)
-        part.add("no_constraint_rows")
-        return
-    conv = _converged(d)
+    conv = _converged(d) if nefc else True      # no constraint row: nothing to solve, qacc = qacc_smooth exactly
     qacc = np.array(d.qacc)
     f_fwd = np.array(d.efc_force[:nefc])
+    qc_fwd = np.array(d.qfrc_constraint)
     tau = np.array(d.qfrc_applied) + C.xfrc_joint(lib, m, d) + np.array(d.qfrc_actuator)
-    law = C.Law(m, d)
-    J = C.dense_J(m, d)
-    f_ref = law.force(J @ qacc - np.array(d.efc_aref[:nefc]))
+    if nefc:
+        law = C.Law(m, d)
+        J = C.dense_J(m, d)
+        f_ref = law.force(J @ qacc - np.array(d.efc_aref[:nefc]))
+    else:
+        f_ref = np.zeros(0)
     lib.mj_inverse(m, d)
     if int(d.nefc) != nefc:
         bad("inverse builds a different constraint set", "continuous", "nefc %d vs %d" % (int(d.nefc), nefc))
         return
-    qs = _scales(lib, m, d, tau, qacc)
-    fs = max(1.0, float(np.abs(f_fwd).max()), float(np.abs(f_ref).max()))
-    # the analytic inverse does not depend on the forward solver having converged: checked at every returned qacc
-    e_r = float(np.abs(np.array(d.efc_force[:nefc]) - f_ref).max()) / fs
-    _hist(part, "law", e_r)
-    if not e_r <= TOL_CONT:
-        bad("inverse efc_force != documented analytic inverse", "continuous", "rel err %.3g" % e_r)
+    qs = max(_scales(lib, m, d, tau, qacc), float(np.abs(qc_fwd).max()))
+    fs = max([1.0] + ([float(np.abs(f_fwd).max()), float(np.abs(f_ref).max())] if nefc else []))
+    if nefc:
+        # the analytic inverse does not depend on the forward solver having converged: checked at every returned qacc
+        e_r = float(np.abs(np.array(d.efc_force[:nefc]) - f_ref).max()) / fs
+        _hist(part, "law", e_r)
+        if not e_r <= TOL_CONT:
+            bad("inverse efc_force != documented analytic inverse", "continuous", "rel err %.3g" % e_r)
     if not conv:
         part.count(1)
         part.add("not_converged")
+        _standalone(lib, host, part, bad, ident, cone, jac, st, None, None, None, None, qs, fs)     # keeps the history chain
         return
     e_q = float(np.abs(np.array(d.qfrc_inverse) - tau).max()) / qs
-    e_f = float(np.abs(np.array(d.efc_force[:nefc]) - f_fwd).max()) / fs
-    _hist(part, "cont", max(e_q, e_f))
+    e_f = float(np.abs(np.array(d.efc_force[:nefc]) - f_fwd).max()) / fs if nefc else 0.0
+    e_c = float(np.abs(np.array(d.qfrc_constraint) - qc_fwd).max()) / qs
+    _hist(part, "cont", max(e_q, e_f, e_c))
     if not e_q <= TOL_CONT:
         bad("qfrc_inverse != applied + J'xfrc + actuator", "continuous", "rel err %.3g" % e_q)
     if not e_f <= TOL_CONT:
         bad("inverse efc_force != forward efc_force", "continuous", "rel err %.3g" % e_f)
+    if not e_c <= TOL_CONT:
+        bad("inverse qfrc_constraint != forward qfrc_constraint", "continuous", "rel err %.3g" % e_c)
     nontriv = bool(np.any(f_fwd != 0))
     part.count(1, key=(ident, cone, jac, st, "cont") if nontriv else None,
                sample=({"skel": host.skel, "atoms": host.atoms, "eq": host.eqkind, "state": st, "cone": cname, "nefc": nefc,
                         "err": e_q} if nontriv and st[2] == 1 and ident[1] % 89 == 0 else None))
+    _standalone(lib, host, part, bad, ident, cone, jac, st, qacc, tau, qc_fwd, f_fwd, qs, fs)
+    if nefc == 0:
+        part.add("no_constraint_rows")
+        return
 
     # ------------------------------------------------------------ mj_compareFwdInv keeps the forward results
     lib.mj_forward(m, d)
@@ -226,7 +292,9 @@ def _chunk(chunk):
             C.report(part, "host model does not compile", "skel=%s mix=%s eq=%s: %s" % (skel, atoms, eqkind, e),
                            {"skel": skel, "atoms": atoms, "eq": eqkind})
             continue
-        states = host.state_space(nq=2, nvel=3) if thorough else [s for s in host.state_space(nq=2, nvel=3) if s[0] == 1 and s[1] != 0]
+        host.d_used = lib.make_data(host.m)     # the 'previously used' mjData of the stand-alone inverse (never reset)
+        host.used_calls, host.used_prev = 0, None
+        states = [s for s in host.state_space(nq=2, nvel=3, idle=True) if thorough or (s[0] == 1 and s[1] != 0)]
         for cone in (C.CONE_PYRAMIDAL, C.CONE_ELLIPTIC):
             for jac in (C.JAC_DENSE, C.JAC_SPARSE):
                 for st in states:
@@ -238,6 +306,10 @@ def _chunk(chunk):
                                         "jacobian": jac, "xml": host.xml})
                         host.d.free()
                         host.d = lib.make_data(host.m)
+                        host.d_used.free()
+                        host.d_used = lib.make_data(host.m)
+                        host.used_calls, host.used_prev = 0, None
+        host.d_used.free()
         host.free()
     return part
 
@@ -252,13 +324,21 @@ def run(ctx):
     ctx.extra["mixes"] = len(mixes)
     ctx.rule = ("skeleton %s x all 511 non-empty subsets of {E(connect|weld|joint),F,L,T,C1,C3,C4,C6} x cone{pyramidal,elliptic} x "
                 "jacobian{dense,sparse} x state lattice (contact k at dist %s rotated by cs, limit k at %s rotated by ls, %s) x "
-                "mode{continuous, compareFwdInv, %s}; evaluation = one forward/inverse comparison; non-trivial = distinct "
+                "+ per (configuration, velocity) the idle state (contacts at dist %s > margin, all limits inactive) x "
+                "mode{continuous, stand-alone inverse on a never-reset mjData last evaluated at the previous state of this sequence, "
+                "compareFwdInv, %s}; evaluation = one forward/inverse comparison; non-trivial = distinct "
                 "(model, cone, jacobian, state, mode) with a non-zero constraint force (discrete modes: and a discrete acceleration "
-                "that differs from the continuous one)"
+                "that differs from the continuous one; stand-alone mode: the previous evaluation left a non-zero qfrc_constraint "
+                "different from this state's)"
                 % (skels, C.CONTACT_DIST, C.LIMIT_STATE_NAME,
                    "2 configurations x 3 velocity patterns" if ctx.thorough else "bent configuration x 2 non-zero velocity patterns",
+                   C.CONTACT_IDLE_DIST,
                    ", ".join(n for n, _, _ in MODES)))
     ctx.assumptions = ["forward solve counted as converged iff the last recorded Newton gradient < 1e-10 (tolerance 0, 200 iterations)",
+                       "a state without constraint rows is treated as converged (nothing to solve)",
+                       "the stand-alone inverse receives the integration state by mj_copyState(INTEGRATION) and qacc from the forward "
+                       "solve; its history is the fixed enumeration order of the states of one host model (bit-exact history "
+                       "independence of all calls is C01's subject; here the forward/inverse identity is judged with the same tolerance)",
                        "J'xfrc_applied recomputed with mj_jac at xipos (C07)", "RK4 excluded (statement)",
                        "thresholds 1e-7 (continuous) / 1e-6 (discrete, finite-differenced qacc) relative to the largest term of the equation of motion"]
 
@@ -270,6 +350,10 @@ def replay(ctx, path):
     lib = mj.load()
     host = C.Host(lib, r["skel"], tuple(r["atoms"]), r["eq"])
     part = core.Part()
+    host.d_used = lib.make_data(host.m)
+    host.used_calls, host.used_prev = 0, None
+    if r.get("prev_state") is not None:     # history of the 'used' mjData: the state evaluated before (its own findings are not this replay's)
+        check_state(lib, host, core.Part(), tuple(r["prev_state"]), int(r["cone"]), int(r["jacobian"]), (r["skel"], 0), True)
     check_state(lib, host, part, tuple(r["state"]), int(r["cone"]), int(r["jacobian"]), (r["skel"], 0), True)
     for v in part["violations"]:
         print("VIOLATION-REPLAY %s\n  %s" % (v["key"], v["what"]))
